@@ -52,6 +52,11 @@ def ann_kind_shape(ann: ast.expr | None):
     return UNKNOWN, UNKNOWN
 
 
+# floating-point array fields of mujoco.mjx.Data / Model read by the environments (MuJoCo's documented dtypes)
+MJX_FLOAT_FIELDS = {"qpos", "qvel", "qacc", "ctrl", "act", "cfrc_ext", "cinert", "cvel", "qfrc_actuator", "qfrc_constraint", "xpos", "xipos", "xquat", "xmat",
+                    "site_xpos", "site_xmat", "subtree_com", "sensordata", "ten_length", "ten_velocity", "actuator_force", "cacc", "geom_xpos"}
+
+
 class Kinds:
     """Abstract interpretation of value-graph nodes within one function."""
 
@@ -86,6 +91,31 @@ class Kinds:
             r = (r[0], SCALAR)
         self.memo[n] = r
         return r
+
+    def _one_dim(self, n):
+        """is `n` annotated as an array with exactly one fixed axis (e.g. Float[Array, "2"])?"""
+        ann = None
+        if isinstance(n, tuple) and n and n[0] == "param" and self.fn is not None:
+            for a in self.fn.args.posonlyargs + self.fn.args.args + self.fn.args.kwonlyargs:
+                if a.arg == n[1]:
+                    ann = a.annotation
+        elif isinstance(n, tuple) and n and n[0] == "attr":
+            ci = self.b.type_of(n[1])
+            if ci is not None:
+                r = self.prog.resolve_attr(ci, n[2])
+                if r is not None and r[0] == "field":
+                    ann = r[2].annotation
+        if isinstance(ann, ast.Constant) and isinstance(ann.value, str):
+            try:
+                ann = ast.parse(ann.value, mode="eval").body
+            except SyntaxError:
+                return False
+        if isinstance(ann, ast.Subscript) and isinstance(ann.slice, ast.Tuple) and len(ann.slice.elts) == 2:
+            sh = ann.slice.elts[1]
+            if isinstance(sh, ast.Constant) and isinstance(sh.value, str):
+                toks = sh.value.split()
+                return len(toks) == 1 and not any(c in toks[0] for c in "*.#")
+        return False
 
     def join(self, a, b):
         k = a[0] if a[0] == b[0] else (FLOAT if {a[0], b[0]} <= {INT, FLOAT, BOOL} and FLOAT in (a[0], b[0]) else
@@ -128,6 +158,8 @@ class Kinds:
                     return ann_kind_shape(r[2].returns)
             if n[2] in ("ndim", "size"):
                 return INT, SCALAR
+            if n[2] in MJX_FLOAT_FIELDS:
+                return FLOAT, NONSCALAR
             return UNKNOWN, UNKNOWN
         if k == "cmp":
             a, b = self.of(n[2]), self.of(n[3])
@@ -147,6 +179,9 @@ class Kinds:
             j = self.join(a, b)
             if n[1] == "Div":
                 return FLOAT, j[1]
+            if n[1] in ("Add", "Sub", "Mult", "Pow", "Mod") and FLOAT in (a[0], b[0]) and STATIC not in (a[0], b[0]):
+                # type promotion: arithmetic with a float operand is float whatever the other numeric operand is
+                return FLOAT, j[1]
             if n[1] in ("BitAnd", "BitOr", "BitXor") and a[0] == b[0] == BOOL:
                 return BOOL, j[1]
             return j
@@ -155,7 +190,14 @@ class Kinds:
             p = self.of(n[1])
             j = self.join(a, b)
             return j[0], (SCALAR if j[1] == SCALAR and p[1] == SCALAR else UNKNOWN if NONSCALAR not in (j[1], p[1]) else NONSCALAR)
-        if k == "item":
+        if k in ("item", "sub"):
+            base = self.of(n[1])
+            if base[0] in (FLOAT, INT, BOOL):
+                # an element / slice of an array has the array's kind; rank is only known when a scalar index hits a 1-D annotation
+                one_d = self._one_dim(n[1])
+                idx = n[2]
+                scalar_idx = isinstance(idx, int) or (isinstance(idx, tuple) and idx and idx[0] == "const" and isinstance(idx[1], int) and not isinstance(idx[1], bool))
+                return base[0], (SCALAR if one_d and scalar_idx else UNKNOWN)
             return UNKNOWN, UNKNOWN
         if k == "call":
             return self.call(n)
@@ -238,4 +280,15 @@ class Kinds:
                 r = self.prog.resolve_method(ci, f[2])
                 if r is not None:
                     return ann_kind_shape(r[1].returns)
+                ra = self.prog.resolve_attr(ci, f[2])
+                if ra is not None and ra[0] == "field":
+                    # a field declared Callable[[...], R]: the call has R's kind
+                    ann = ra[2].annotation
+                    if isinstance(ann, ast.Constant) and isinstance(ann.value, str):
+                        try:
+                            ann = ast.parse(ann.value, mode="eval").body
+                        except SyntaxError:
+                            ann = None
+                    if isinstance(ann, ast.Subscript) and ast.unparse(ann.value).split(".")[-1] == "Callable" and isinstance(ann.slice, ast.Tuple) and len(ann.slice.elts) == 2:
+                        return ann_kind_shape(ann.slice.elts[1])
         return UNKNOWN, UNKNOWN
